@@ -16,6 +16,8 @@ replace github.com/weedbox/pokertable => ../pokertable
 
 replace github.com/weedbox/syncsaga => ../syncsaga
 
+replace github.com/weedbox/pokerface => ../pokerface
+
 replace github.com/weedbox/timebank => ../timebank
 
 replace verif.local/simrt => ../simrt
